@@ -414,6 +414,30 @@ Proof.
   left. exists auth. split; [exact Hauth|]. unfold hi_of, hv_of. rewrite A, B. exact Hin.
 Qed.
 
+(* C07: "the validated status shows it not revoked", grounded in the tree: whenever a verified
+   bundle's status answer names the revocation root of a well-formed revocation tree rt, the auth
+   claim's nonce is NOT a key of rt (not revoked there), or a hash collision is exhibited. *)
+Theorem bjj_not_revoked_in_tree : forall (b : bjj_bundle D SigT),
+  verify_bjj b = Ok tt ->
+  exists auth cs rslv ans,
+    b_auth b = Some auth /\ status_entry (b_status b) cs /\ cs_nonce cs = claim_nonce auth /\
+    lookup_resolver reg (cs_type cs) = Some rslv /\ rslv cs = Some ans /\
+    forall rt, wf rt -> hex_or_zero (ts_rtr (a_issuer ans)) = Ok (root rt) ->
+      ~ In (hash_of_z (claim_nonce auth)) (keys rt) \/ Collision hl hm.
+Proof.
+  intros b Hok. apply bjj_decision in Hok.
+  destruct Hok as (auth & sig & hi & hv & ahi & ahv & mtp & ctr & st & d & cs &
+                   Hauth & _ & _ & _ & _ & _ & _ & _ & _ & _ & _ & _ & _ & Hse & Hn & Hnr).
+  destruct Hnr as (rslv & ans & st' & revroot & Hlk & Hans & _ & Hrr & Hcar & Hex).
+  exists auth, cs, rslv, ans. repeat (split; [assumption|]).
+  intros rt Hwf Hroot. rewrite Hrr in Hroot. inversion Hroot; subst revroot.
+  destruct Hcar as (a & _ & _ & Hrfp). rewrite <- Hn.
+  assert (Hv : verify_proof hl hm (root rt) (mkproof (r_ex (a_mtp ans)) (r_sibs (a_mtp ans)) a)
+                            (hash_of_z (cs_nonce cs)) (hash_of_z 0) = true).
+  { unfold verify_proof. rewrite Hrfp. apply Z.eqb_refl. }
+  exact (soundness_nonex hl hm maxlev rt _ _ _ Hwf Hv Hex).
+Qed.
+
 End Complete78.
 
 (* ================================================================== *)
